@@ -38,6 +38,8 @@ EXC = {"ValueError": ValueError, "ZeroDivisionError": ZeroDivisionError, "Custom
 # (type, form) pair occurs in every enumerated run of length >= 4.
 FORMS = (None, (), (3, "three"))
 
+import numpy as _np
+NP_ERR = dict(_np.geterr())      # whatever a solver does, the process-wide numpy error state is left as it was
 NMAX = {"quick": 60, "thorough": 80}
 _tier = ["quick"]
 
@@ -58,6 +60,9 @@ def cases(draw):
     params = {"r": draw(gen.r_values),
               "eps": draw(gen.eps_values(recipe["n"], recipe["density"], cheap=False, upto=0.01)),
               "itersLimit": limit}
+    sp = draw(gen.start_points(recipe))
+    if sp is not None:
+        params["startPoint"] = sp
     return {"recipe": recipe, "params": params}
 
 
@@ -94,6 +99,9 @@ def fault_run(case, k, excname, clean, form=0, acc=None, resume=False):
     res = run.results()
     if best_of(res) != (pt, val):
         fail(who + "GetResults() differs from the Solution returned by Solve")
+    import numpy as np
+    if np.geterr() != NP_ERR:
+        fail(who + "numpy's floating-point error handling was left changed: %r, was %r" % (np.geterr(), NP_ERR))
     # the result reflects exactly the k-1 completed trials - the accuracy too: the smallest Hoelder length of an
     # interval that was subdivided by one of them (acc[j]: that minimum over the first j trials of the clean run)
     if acc is not None:
@@ -105,13 +113,18 @@ def fault_run(case, k, excname, clean, form=0, acc=None, resume=False):
     if resume:
         # the fault was transient: the same solver goes on, and every trial of the continued search is placed by the
         # decision rule from all completed trials (the interval chosen for the failed trial must not be lost)
-        run.solve()
+        sol2 = run.solve()
         if run.problem.calls <= k:
             return
+        who2 = who + "search continued by a second Solve: "
+        if sol2.numberOfGlobalTrials != len(run.problem.log):
+            fail(who2 + "numberOfGlobalTrials=%r, but %d evaluations were completed" %
+                 (sol2.numberOfGlobalTrials, len(run.problem.log)))
+        check_search_data(run, who=who2)
         try:
             replay_history(run.n, case["params"]["r"], run.history(), check_rule=True)
         except Violation as v:
-            fail(who + "search continued by a second Solve: " + str(v))
+            fail(who2 + str(v))
 
 
 def refine_fault_run(case, k, excname, nglobal, ntotal):
